@@ -49,7 +49,7 @@ func ShutDown(
 		return fmt.Errorf("can't kill the stake pool: %v", err)
 	}
 
-	if err = sp.Save(p.Type(), clientId, balances); err != nil {
+	if err = sp.Save(p.Type(), p.Id(), balances); err != nil {
 		return err
 	}
 
